@@ -39,7 +39,7 @@ def displacement(perm):
 def cfg_name(c):
     return (f"N{c['NMsg']}S{c['NSub']}C{c['Cap']}{'L' if c['Lazy'] else 'E'}"
             f"D{''.join('1' if d else '0' for d in c['Drive'])}{c['Mode'][0]}"
-            f"P{''.join(map(str, c['Perm']))}F{''.join(map(str, sorted(c['Fut'])))}")
+            f"P{''.join(map(str, c['Perm']))}F{''.join(map(str, sorted(c['Fut'])))}" + ("K" if c.get("Kill") else ""))
 
 
 def all_configs(max_msg, max_sub, caps, perm_msgs=3, fut=True):
@@ -84,7 +84,7 @@ FutDef == {V.to_tla(set(c['Fut']))}
 ====
 """
     cfg = f"""SPECIFICATION Spec
-CONSTANTS NMsg = {c['NMsg']} NSub = {c['NSub']} Cap = {c['Cap']} Lazy = {V.to_tla(c['Lazy'])} Mode = "{c['Mode']}" RepairedFetch = {V.to_tla(c.get('RepairedFetch', True))}
+CONSTANTS NMsg = {c['NMsg']} NSub = {c['NSub']} Cap = {c['Cap']} Lazy = {V.to_tla(c['Lazy'])} Mode = "{c['Mode']}" RepairedFetch = {V.to_tla(c.get('RepairedFetch', True))} WithKill = {V.to_tla(bool(c.get('Kill')))}
 Drive <- DriveDef
 Perm <- PermDef
 Fut <- FutDef
@@ -160,6 +160,10 @@ class MbRun:
                     s.yield_point(("step", "W"))
                     f.set_result(n)
                 mb._threads.append(_SHIM.Thread(target=w, name=f"W{n}"))
+            if c.get("Kill"):
+                # what the processor's main thread / a failing neighbour does, at an arbitrary moment
+                mb._threads.append(_SHIM.Thread(target=lambda: mb.kill(upstream=True, reason=(RuntimeError, RuntimeError("killed by K"), None)),
+                                                name="K"))
             mb.start()
             mb.cleanup()
         self.maintask = s.spawn("main", main)
@@ -186,7 +190,7 @@ class MbRun:
         return dict(box=frozenset(n for n, _ in mb._mailbox),
                     haveRead=tuple(x + 1 for x in mb._subscribers_have_read),
                     waitFor=tuple(NONE if x is None else x for x in mb._subscriber_waiting_for),
-                    nSent=mb._n_sent, closed=mb.closed, killed=mb.killed,
+                    nSent=mb._n_sent, closed=mb.closed, killed=mb.killed, force=bool(mb.force_killed),
                     got=tuple(tuple(self.got[i]) for i in range(self.c["NSub"])),
                     futDone=frozenset(n for n, f in self.futs.items() if f.done()))
 
@@ -208,7 +212,7 @@ class MbRun:
         self.s.abort()
 
 
-WANT_OF_PC = dict(gate="lock", wfetch="cond", next="step", send="lock", close="lock", wwrite="cond",
+WANT_OF_PC = dict(rekill="lock", gate="lock", wfetch="cond", next="step", send="lock", close="lock", wwrite="cond",
                   wwriteC="cond", done="done", error="done", top="lock", wread="cond", fwait="future")
 WANT_OF_PC["yield"] = "step"
 
@@ -216,6 +220,8 @@ WANT_OF_PC["yield"] = "step"
 def thread_of(action):
     if action.startswith("S"):
         return "S"
+    if action.startswith("K"):
+        return "K"
     k = re.search(r"\((\d+)\)", action).group(1)
     return ("W" if action.startswith("W") else "R") + k
 
@@ -226,6 +232,8 @@ def trace_threads(trace):
     for (a0, s0), (a1, s1) in zip(trace, trace[1:]):
         if a1.startswith("S"):
             out.append("S")
+        elif a1.startswith("K"):
+            out.append("K")
         elif a1.startswith("W"):
             (n,) = set(s1["futDone"]) - set(s0["futDone"])
             out.append(f"W{n}")
@@ -252,6 +260,8 @@ def compare(spec_state, run, c):
         exp[f"R{i + 1}"] = WANT_OF_PC[pc]
     for n in c["Fut"]:
         exp[f"W{n}"] = "done" if n in spec_state["futDone"] else "step"
+    if c.get("Kill"):
+        exp["K"] = "done" if spec_state["kpc"] == "done" else "lock"
     if exp != w:
         diffs.append(f"pc:{exp}!={w}")
     return diffs, pr
@@ -262,6 +272,9 @@ def p_judge(c, got, maxbox, hang, error):
     """The property's own clauses evaluated on an observed real execution."""
     bad = []
     want = list(range(c["NMsg"]))
+    if c.get("Kill") and type(error).__name__ == "MailboxKilled":
+        error = None                # how a killed mailbox ends its threads
+    killed = bool(c.get("Kill"))
     if hang:
         bad.append("hang: no thread can run but not all finished: " + str(hang))
     if error:
@@ -269,7 +282,7 @@ def p_judge(c, got, maxbox, hang, error):
     for i, g in got.items():
         if g != want[:len(g)]:
             bad.append(f"subscriber {i + 1} received {g}: not in order / not exactly once")
-        elif not hang and not error and g != want:
+        elif not hang and not error and not killed and g != want:
             bad.append(f"subscriber {i + 1} terminated with {g}, expected {want}")
     if not c["Lazy"] and maxbox > c["Cap"]:
         bad.append(f"eager mailbox held {maxbox} > capacity {c['Cap']}")
@@ -305,6 +318,8 @@ def run_schedule(c, chooser, record=None, prefix=()):
         err = r.sender_error
         for t in r.s.tasks:
             if t.exc is not None and not isinstance(t.exc, dsched.Abort):
+                if c.get("Kill") and type(t.exc).__name__ == "MailboxKilled":
+                    continue            # how a killed mailbox ends its threads
                 err = err or t.exc
         got = {i: list(v) for i, v in r.got.items()}
     finally:
